@@ -57,3 +57,18 @@ Definition C03_file_tree_full : Prop :=
     exists addr tr,
       NS.spec_tree (fst (NS.run (NS.spec_step NS.go_cfg) NS.s_empty (map ns_op h))) = Some tr /\
       IOProg.run0 (tree_image h) (p_open true (blen (tree_image h)) fuel hfuel) = Ok (node_of_tree addr [47] tr).
+
+(* ------------------------------------------------------------------ the syntactic class of C03_file_tree_depth1 *)
+(* every call is a CreateGroup / CreateDataset whose path is "/" name in the specification's syntax (one component: non-empty, no
+   NUL, no '/'), with dataset arguments the model covers.  Such calls may well be REFUSED (duplicate name, heap full, node
+   full): the theorem says the library's model and the specification refuse the same ones. *)
+Definition one_component (p : bytes) : bool := match NS.split_path p with Some [_] => true | _ => false end.
+Definition d1_op (o : top) : bool :=
+  match o with
+  | TGroup p => one_component p
+  | TDataset p _ _ _ => one_component p && op_args_ok o
+  | THardLink _ _ => false
+  end.
+(* the file stays below 2^62 bytes at every call *)
+Fixpoint bounded (st : tstate) (h : list top) : Prop :=
+  match h with [] => True | o :: r => blen (t_file st) + op_extent o < FLAT_LIM /\ bounded (fst (t_step st o)) r end.
